@@ -1,8 +1,22 @@
 """E5: statement parser for the C++ driver functions inside the templates, and
-the small dataflow queries C19 needs (flag discipline, guarded returns)."""
+the small dataflow queries C19 needs (flag discipline, guarded returns).
+
+Beyond the parser (`parse_body`, `walk`):
+ * `walk` knows guard clauses: after `if (c) { ..; return/throw/break/continue; }` the following statements of the block
+   run under `!c` (conds carry (kind, tokens, polarity, originating statement));
+ * `truth` / `guards_truth`: three-valued evaluation of a C condition under concrete values of some identifiers
+   (`cvflag = -3`), so that a test is recognised by what it decides, not by how it is spelt;
+ * `inline_calls`: a bare call `helper(a, b);` of a void function defined in the same file is replaced by its body;
+ * `copies`: the whole-array copies a statement performs (index loop, memcpy, std::copy, std::copy_n);
+ * `Sym`: straight-line symbolic execution (scalars as C expressions over the values at the start, arrays as named
+   values, branches decided by the concrete values) -- what a piece of code leaves in `dt`, `t0`, `ab` for a given flag;
+ * `Fn`: positions and definitions of a function's locals (`expand` replaces a once-defined local by its definition).
+"""
 from __future__ import annotations
 
 import re
+
+from . import calg
 
 TOK = re.compile(r"""
     \s+
@@ -18,8 +32,70 @@ class CStmtError(Exception):
     pass
 
 
+DEFINE = re.compile(r"^[ \t]*#[ \t]*define[ \t]+(\w+)\(([^)\n]*)\)((?:\\\n|[^\n])*)", re.M)
+
+
+def macro_defs(text: str) -> dict:
+    """function-like macros `#define NAME(a, b) body` of a file: {NAME: ([params], body)}"""
+    out = {}
+    for m in DEFINE.finditer(text):
+        out[m.group(1)] = ([p.strip() for p in m.group(2).split(",") if p.strip()], m.group(3).replace("\\\n", " ").strip())
+    return out
+
+
+def expand_macros(text: str, defs: dict, depth=0) -> str:
+    """`NAME(x, y)` -> the macro's body with its parameters replaced (as the preprocessor does, minus # and ##)"""
+    if not defs or depth > 4:
+        return text
+    pat = re.compile(r"\b(" + "|".join(map(re.escape, defs)) + r")\s*\(")
+    out = []
+    i = 0
+    while True:
+        m = pat.search(text, i)
+        if not m:
+            out.append(text[i:])
+            break
+        ls = text.rfind("\n", 0, m.start()) + 1
+        if text[ls:m.start()].lstrip().startswith("#"):        # the definition itself
+            out.append(text[i:m.end()])
+            i = m.end()
+            continue
+        j, d = m.end(), 1
+        while j < len(text) and d:
+            d += text[j] == "("
+            d -= text[j] == ")"
+            j += 1
+        args, cur, d = [], "", 0
+        for ch in text[m.end():j - 1]:
+            if ch == "," and d == 0:
+                args.append(cur)
+                cur = ""
+            else:
+                d += ch in "([{"
+                d -= ch in ")]}"
+                cur += ch
+        if cur.strip() or args:
+            args.append(cur)
+        params, body = defs[m.group(1)]
+        out.append(text[i:m.start()])
+        if len(args) == len(params):
+            bind = {p_: a.strip() for p_, a in zip(params, args)}
+            sub = re.sub(r"\b(" + "|".join(map(re.escape, params)) + r")\b", lambda mm: bind[mm.group(1)], body) if params else body
+            out.append(" " + expand_macros(sub, {k: v for k, v in defs.items() if k != m.group(1)}, depth + 1) + " ")
+        else:
+            out.append(text[m.start():j])
+        i = j
+    return "".join(out)
+
+
 def tokenize(s: str):
-    s = "\n".join("" if l.lstrip().startswith("#") else l for l in s.split("\n"))
+    lines = []
+    cont = False
+    for l in s.split("\n"):                 # preprocessor lines (with their continuation lines) are not statements
+        drop = cont or l.lstrip().startswith("#")
+        cont = drop and l.rstrip().endswith("\\")
+        lines.append("" if drop else l)
+    s = "\n".join(lines)
     out = []
     i = 0
     while i < len(s):
@@ -104,7 +180,10 @@ class P:
             b = self.stmt()
             self.eat("while")
             c = self.paren()
-            self.eat(";")
+            if self.peek() == ";":          # (a macro body may leave the semicolon to its caller)
+                self.eat(";")
+            if norm(c) in ("0", "false") and not any(x[0] in ("break", "continue") and not any(g[0] in ("for", "while") for g in cs) for x, cs in walk(b)):
+                return b                    # `do { .. } while (0)`: the statements, once
             return ("dowhile", c, b)
         if x == "return":
             self.eat()
@@ -116,6 +195,8 @@ class P:
         if x == "throw":
             self.eat()
             return ("throw", self.until((";",)))
+        if x == "switch":
+            return self.switch()
         if x == "try":
             self.eat()
             b = self.stmt()
@@ -129,6 +210,77 @@ class P:
             self.eat()
             return ("expr", [])
         return ("expr", self.until((";",)))
+
+
+def _switch(self):
+    """`switch (E) { case A: case B: S..; break; default: T.. }` is read as the chain `if (E == A || E == B) { S.. } else { T.. }`
+    (cases are disjoint; E is a plain value here).  A case that falls through into the next one is not understood."""
+    self.eat("switch")
+    e = self.paren()
+    self.eat("{")
+    arms = []          # (labels | None for default, [stmts])
+    labels, body, open_ = [], [], False
+    while self.peek() != "}":
+        x = self.peek()
+        if x in ("case", "default"):
+            if open_ and body:
+                if not always_exits(("block", body)):
+                    raise CStmtError("a switch case falls through into the next one")
+                arms.append((labels, body))
+                labels, body = [], []
+            open_ = True
+            self.eat()
+            if x == "case":
+                lab = []
+                while self.peek() != ":" or (self.peek(1) == ":" ):
+                    lab.append(self.eat())
+                labels.append(lab)
+            else:
+                labels.append(None)
+            self.eat(":")
+            continue
+        if not open_:
+            raise CStmtError("statement before the first case of a switch")
+        body.append(self.stmt())
+    self.eat("}")
+    if open_:
+        arms.append((labels, body))
+    chain = None
+    default = None
+    for labs, body in arms:
+        def unbreak(b):      # the `break` that ends the case (possibly inside the case's own braces)
+            if b and b[-1] == ("break",):
+                return b[:-1]
+            if b and b[-1][0] == "block":
+                return b[:-1] + [("block", unbreak(b[-1][1]))]
+            return b
+        body = unbreak(body)
+        if any(st[0] == "break" and not any(g[0] in ("for", "while") for g in c) for b in body for st, c in walk(b)):
+            raise CStmtError("a `break` in the middle of a switch case")
+        if None in labs:
+            default = ("block", body)
+            labs = [l for l in labs if l is not None]
+            if not labs:
+                continue
+        cond = []
+        for l in labs:
+            cond += (["||"] if cond else []) + ["("] + list(e) + [")", "=="] + ["("] + l + [")"]
+        arms_if = ["if", cond, ("block", body), None]
+        if chain is None:
+            chain = first = arms_if
+        else:
+            chain[3] = arms_if
+            chain = arms_if
+    if chain is None:
+        return default or ("block", [])
+    chain[3] = default
+
+    def freeze(a):
+        return ("if", a[1], a[2], freeze(a[3]) if isinstance(a[3], list) else a[3])
+    return freeze(first)
+
+
+P.switch = _switch
 
 
 def parse_body(text: str):
@@ -146,25 +298,49 @@ def norm(tokens) -> str:
     return "".join(tokens)
 
 
+JUMPS = ("return", "throw", "break", "continue")
+
+
+def always_exits(st) -> bool:
+    """control never reaches the statement after `st` (it ends in return / throw / break / continue on every path)"""
+    k = st[0]
+    if k in JUMPS:
+        return True
+    if k == "block":
+        return any(always_exits(s) for s in st[1])
+    if k == "if":
+        return st[3] is not None and always_exits(st[2]) and always_exits(st[3])
+    return False
+
+
 def walk(st, conds=()):
-    """yield (stmt, conds) with conds = tuple of (kind, tokens, polarity)."""
+    """yield (stmt, conds) with conds = tuple of (kind, tokens, polarity, originating statement).
+    Guard clauses count: the statements that follow `if (c) { ..leave.. }` inside a block are under (c, False), those that
+    follow `if (c) {..} else { ..leave.. }` under (c, True)."""
     yield st, conds
     k = st[0]
     if k == "block":
+        extra = ()
         for s in st[1]:
-            yield from walk(s, conds)
+            yield from walk(s, conds + extra)
+            if s[0] == "if":
+                th, el = always_exits(s[2]), s[3] is not None and always_exits(s[3])
+                if th and not el:
+                    extra += (("if", tuple(s[1]), False, s),)
+                elif el and not th:
+                    extra += (("if", tuple(s[1]), True, s),)
     elif k == "if":
-        yield from walk(st[2], conds + (("if", tuple(st[1]), True),))
+        yield from walk(st[2], conds + (("if", tuple(st[1]), True, st),))
         if st[3] is not None:
-            yield from walk(st[3], conds + (("if", tuple(st[1]), False),))
+            yield from walk(st[3], conds + (("if", tuple(st[1]), False, st),))
     elif k == "for":
-        yield from walk(st[4], conds + (("for", tuple(st[2]), True),))
+        yield from walk(st[4], conds + (("for", tuple(st[2]), True, st),))
     elif k in ("while", "dowhile"):
-        yield from walk(st[2], conds + (("while", tuple(st[1]), True),))
+        yield from walk(st[2], conds + (("while", tuple(st[1]), True, st),))
     elif k == "try":
-        yield from walk(st[1], conds + (("try", (), True),))
+        yield from walk(st[1], conds + (("try", (), True, st),))
         for d, b in st[2]:
-            yield from walk(b, conds + (("catch", tuple(d), True),))
+            yield from walk(b, conds + (("catch", tuple(d), True, st),))
 
 
 def assigned_call(tokens):
@@ -258,6 +434,8 @@ def unchecked_flags(body, producers):
                 pend = r if r is not None else pend
             pend = {v: c for v, c in pend.items() if not reads(cond, v)}
             after_once = run(bodyst, dict(pend))
+            if k == "dowhile" and not after_once:
+                return after_once            # the body ran: what it read is read (None: it always leaves)
             if after_once:
                 # second iteration: anything still pending that gets re-assigned is an overwrite
                 again = run(bodyst, dict(after_once))
@@ -298,3 +476,572 @@ def unchecked_flags(body, producers):
             seen.add(p)
             out.append(p)
     return out
+
+
+# ------------------------------------------------------------------ expressions: casts, concrete three-valued evaluation
+
+IDENT = re.compile(r"[A-Za-z_]\w*$")
+CAST_TYPES = {"realtype", "double", "float", "int", "long", "unsigned", "bool", "size_t", "sunindextype", "sunrealtype"}
+ASSIGN_OPS = ("=", "+=", "-=", "*=", "/=", "%=", "&=", "|=", "^=")
+
+
+def strip_casts(tokens):
+    """`(realtype)x`, `static_cast<realtype>(x)` -> `x` / `(x)` (value-preserving for the comparisons made here)"""
+    out = []
+    i, n = 0, len(tokens)
+    while i < n:
+        t = tokens[i]
+        if t == "(" and i + 3 < n and tokens[i + 1] in CAST_TYPES and tokens[i + 2] == ")" and not (out and IDENT.match(out[-1])) \
+                and (IDENT.match(tokens[i + 3]) or tokens[i + 3] in ("(", "-", "+", "!") or tokens[i + 3][0].isdigit() or tokens[i + 3][0] == "."):
+            i += 3
+            continue
+        if t in ("static_cast", "reinterpret_cast") and i + 4 < n and tokens[i + 1] == "<" and tokens[i + 2] in CAST_TYPES and tokens[i + 3] == ">" and tokens[i + 4] == "(":
+            i += 4
+            continue
+        out.append(t)
+        i += 1
+    return out
+
+
+UNK = None
+_CONST = {"true": True, "false": False, "NULL": 0, "nullptr": 0}
+
+
+def _ev(e, env):
+    k = e[0]
+    if k == "num":
+        v = e[1]
+        return int(v) if re.fullmatch(r"\d+", e[2]) else v
+    if k == "id":
+        if e[1] in env:
+            return env[e[1]]
+        return _CONST.get(e[1], UNK)
+    if k == "neg":
+        v = _ev(e[1], env)
+        return UNK if v is UNK else -v
+    if k == "not":
+        v = _ev(e[1], env)
+        return UNK if v is UNK else (not v)
+    if k == "cond":
+        c = _ev(e[1], env)
+        if c is UNK:
+            a, b = _ev(e[2], env), _ev(e[3], env)
+            return a if (a is not UNK and a == b) else UNK
+        return _ev(e[2], env) if c else _ev(e[3], env)
+    if k == "bin":
+        op = e[1]
+        a, b = _ev(e[2], env), _ev(e[3], env)
+        if op == "&&":
+            if (a is not UNK and not a) or (b is not UNK and not b):
+                return False
+            return UNK if a is UNK or b is UNK else True
+        if op == "||":
+            if (a is not UNK and a) or (b is not UNK and b):
+                return True
+            return UNK if a is UNK or b is UNK else False
+        if a is UNK or b is UNK:
+            return UNK
+        try:
+            if op == "==":
+                return a == b
+            if op == "!=":
+                return a != b
+            if op == "<":
+                return a < b
+            if op == ">":
+                return a > b
+            if op == "<=":
+                return a <= b
+            if op == ">=":
+                return a >= b
+            if op == "+":
+                return a + b
+            if op == "-":
+                return a - b
+            if op == "*":
+                return a * b
+            if op == "/":
+                return (a // b if isinstance(a, int) and isinstance(b, int) and not isinstance(a, bool) else a / b) if b else UNK
+            if op == "%":
+                return a % b if b else UNK
+        except TypeError:
+            return UNK
+    return UNK
+
+
+def value(tokens, env):
+    """value of a C expression under {identifier: number / bool}; None when it depends on anything else"""
+    try:
+        return _ev(calg.parse(" ".join(strip_casts(list(tokens)))), env)
+    except calg.CParseError:
+        return UNK
+
+
+def truth(tokens, env):
+    v = value(tokens, env)
+    return None if v is UNK else bool(v)
+
+
+def guards_truth(conds, env):
+    """conjunction of the `if` conditions (with their polarity) a statement runs under: False as soon as one is false,
+    True when all are known true, None otherwise.  Loop / try contexts do not restrict."""
+    res = True
+    for g in conds:
+        if g[0] != "if":
+            continue
+        t = truth(g[1], env)
+        if t is None:
+            res = None
+            continue
+        if t != g[2]:
+            return False
+    return res
+
+
+# ------------------------------------------------------------------ assignments, locals
+
+def _top_split(tokens, seps):
+    depth = 0
+    parts, cur = [], []
+    for t in tokens:
+        if t in ("(", "[", "{"):
+            depth += 1
+        elif t in (")", "]", "}"):
+            depth -= 1
+        if depth == 0 and t in seps:
+            parts.append(cur)
+            cur = []
+        else:
+            cur.append(t)
+    parts.append(cur)
+    return parts
+
+
+def assignments(tokens):
+    """scalar variables an expression statement (or for-header part) writes: [(name, op, rhs tokens | None, is_declaration)].
+    op is an assignment operator, '++' / '--', or '&' (address handed to a call: value unknown afterwards)."""
+    out = []
+    toks = list(tokens)
+    if not toks:
+        return out
+    depth = 0
+    at = None
+    for i, t in enumerate(toks):
+        if t in ("(", "[", "{"):
+            depth += 1
+        elif t in (")", "]", "}"):
+            depth -= 1
+        elif depth == 0 and t in ASSIGN_OPS:
+            at = i
+            break
+    if at is not None:
+        lhs, rhs = toks[:at], toks[at + 1:]
+        if lhs and IDENT.match(lhs[-1]) and not any(x in ("[", ".", "->", "(") for x in lhs):
+            out.append((lhs[-1], toks[at], rhs, len(lhs) > 1))
+        elif lhs and "[" in lhs and IDENT.match(lhs[0]):
+            out.append((lhs[0], "[]" + toks[at], rhs, False))
+    elif len(toks) == 2 and toks[1] in ("++", "--") and IDENT.match(toks[0]):
+        out.append((toks[0], toks[1], None, False))
+    elif len(toks) == 2 and toks[0] in ("++", "--") and IDENT.match(toks[1]):
+        out.append((toks[1], toks[0], None, False))
+    for i, t in enumerate(toks):
+        if t == "&" and i + 1 < len(toks) and IDENT.match(toks[i + 1]) and i >= 1 and toks[i - 1] in ("(", ","):
+            out.append((toks[i + 1], "&", None, False))
+    return out
+
+
+def written(st) -> set:
+    """names of the variables (scalars and arrays) written anywhere inside a statement"""
+    names = set()
+    for s, _ in walk(st):
+        parts = [s[1]] if s[0] == "expr" else [s[1], s[3]] if s[0] == "for" else []
+        for pt in parts:
+            for nm, op, rhs, decl in assignments(pt):
+                names.add(nm)
+        if s[0] == "expr":
+            for d, src, n in copies(s) or []:
+                names.add(d)
+    return names
+
+
+class Fn:
+    """document order of a function's statements and the definitions of its locals"""
+
+    def __init__(self, body):
+        self.body = body
+        self.seq = list(walk(body))
+        self.pos = {id(s): i for i, (s, c) in enumerate(self.seq)}
+        self.defs = {}
+        for i, (s, c) in enumerate(self.seq):
+            parts = [s[1]] if s[0] == "expr" else [s[1], s[3]] if s[0] == "for" else []
+            for pt in parts:
+                for nm, op, rhs, decl in assignments(pt):
+                    self.defs.setdefault(nm, []).append((i, op, rhs, decl))
+            if s[0] in ("if", "while"):
+                # `if (++n > m)`: n is incremented when the test is made (op '++cond', at the position of the test)
+                for j, t in enumerate(s[1][:-1]):
+                    if t in ("++", "--") and IDENT.match(s[1][j + 1]) and not (j and (IDENT.match(s[1][j - 1]) or s[1][j - 1] in (")", "]"))):
+                        self.defs.setdefault(s[1][j + 1], []).append((i, t + "cond", None, False))
+
+    def written_between(self, names, p, q) -> bool:
+        return any(p < i < q for nm in names for i, op, rhs, decl in self.defs.get(nm, ()))
+
+    def expand(self, tokens, at, depth=0, keep=()):
+        """replace every local that has exactly one definition `type name = expr;` before position `at` -- with nothing
+        `expr` reads written in between -- by `(expr)`: `bool ok = flag >= 0; .. if (ok)` is a test on flag
+        (`keep`: names the caller gives values to itself)"""
+        out = []
+        toks = list(tokens)
+        for j, t in enumerate(toks):
+            d = self.defs.get(t)
+            if d and t not in keep and len(d) == 1 and d[0][1] == "=" and d[0][3] and d[0][0] < at and depth < 6 \
+                    and not (j + 1 < len(toks) and toks[j + 1] == "(") and not (j and toks[j - 1] in (".", "->", "::")):
+                rhs = d[0][2]
+                reads_ = {x for x in rhs if IDENT.match(x)}
+                if not self.written_between(reads_, d[0][0], at):
+                    out += ["("] + self.expand(rhs, d[0][0], depth + 1, keep) + [")"]
+                    continue
+            out.append(t)
+        return out
+
+
+# ------------------------------------------------------------------ whole-array copies
+
+def copies(st):
+    """[(dst, src, n)] when `st` does nothing but copy n leading elements of array src into dst (one or more pairs), else None:
+    `for (int i = 0; i < n; i++) { dst[i] = src[i]; .. }`, memcpy(dst, src, n * sizeof(T)), std::copy(src, src + n, dst),
+    std::copy_n(src, n, dst)."""
+    if st[0] == "for":
+        init, cond, inc = st[1], st[2], st[3]
+        if len(init) < 3 or init[-2:] != ["=", "0"] or not IDENT.match(init[-3]):
+            return None
+        i = init[-3]
+        if len(cond) < 3 or cond[0] != i or cond[1] != "<":
+            return None
+        n = norm(cond[2:])
+        if norm(inc) not in (f"{i}++", f"++{i}", f"{i}+=1", f"{i}={i}+1"):
+            return None
+        body = st[4][1] if st[4][0] == "block" else [st[4]]
+        res = []
+        for b in body:
+            if b[0] != "expr":
+                return None
+            t = b[1]
+            if not t:
+                continue
+            if len(t) == 9 and IDENT.match(t[0]) and t[1:5] == ["[", i, "]", "="] and IDENT.match(t[5]) and t[6:] == ["[", i, "]"]:
+                res.append((t[0], t[5], n))
+            else:
+                return None
+        return res or None
+    if st[0] == "expr" and st[1]:
+        t = list(st[1])
+        while len(t) > 2 and t[1] == "::":
+            t = t[2:]
+        if len(t) >= 4 and t[1] == "(" and t[-1] == ")" and t[0] in ("memcpy", "copy", "copy_n", "memmove"):
+            args = _top_split(t[2:-1], (",",))
+            if len(args) != 3:
+                return None
+            if t[0] in ("memcpy", "memmove") and len(args[0]) == 1 and len(args[1]) == 1:
+                m = re.fullmatch(r"(.+)\*sizeof\(\w+\)|sizeof\(\w+\)\*(.+)", norm(args[2]))
+                return [(args[0][0], args[1][0], (m.group(1) or m.group(2)).strip("()"))] if m else None
+            if t[0] == "copy" and len(args[0]) == 1 and len(args[2]) == 1 and len(args[1]) >= 3 and args[1][0] == args[0][0] and args[1][1] == "+":
+                return [(args[2][0], args[0][0], norm(args[1][2:]))]
+            if t[0] == "copy_n" and len(args[0]) == 1 and len(args[2]) == 1:
+                return [(args[2][0], args[0][0], norm(args[1]))]
+    return None
+
+
+# ------------------------------------------------------------------ helper functions defined in the same file
+
+def params_of(header: str):
+    """parameter names of `type name(type a, type *b, type c = 1)`"""
+    m = re.search(r"\(((?:[^()]|\([^()]*\))*)\)\s*(const)?\s*(:[^{};]*)?$", header.strip(), re.S)
+    if not m:
+        return None
+    inner = m.group(1).strip()
+    if not inner or inner == "void":
+        return []
+    out = []
+    for piece in _top_split(tokenize(inner), (",",)):
+        if "=" in piece:
+            piece = piece[:piece.index("=")]
+        ids = [x for x in piece if IDENT.match(x)]
+        if not ids:
+            return None
+        out.append(ids[-1])
+    return out
+
+
+def inline_calls(st, helpers, depth=0):
+    """helpers: {name: (params, parsed body)} of void functions.  An expression statement that is exactly `name(args);` becomes
+    the helper's body with the parameters replaced by the arguments (extracted code is still this code)."""
+    k = st[0]
+    if k == "block":
+        return ("block", [inline_calls(s, helpers, depth) for s in st[1]])
+    if k == "if":
+        return ("if", st[1], inline_calls(st[2], helpers, depth), None if st[3] is None else inline_calls(st[3], helpers, depth))
+    if k == "for":
+        return ("for", st[1], st[2], st[3], inline_calls(st[4], helpers, depth))
+    if k in ("while", "dowhile"):
+        return (k, st[1], inline_calls(st[2], helpers, depth))
+    if k == "try":
+        return ("try", inline_calls(st[1], helpers, depth), [(d, inline_calls(b, helpers, depth)) for d, b in st[2]])
+    if k == "expr" and len(st[1]) >= 3 and st[1][0] in helpers and st[1][1] == "(" and st[1][-1] == ")" and depth < 4:
+        params, body = helpers[st[1][0]]
+        args = [a for a in _top_split(st[1][2:-1], (",",)) if a] if len(st[1]) > 3 else []
+        inner_depth = 0
+        closed_early = False
+        for j, t in enumerate(st[1][1:-1]):
+            inner_depth += t == "("
+            inner_depth -= t == ")"
+            if inner_depth == 0 and j < len(st[1]) - 3:
+                closed_early = True
+        if len(args) == len(params) and not closed_early and not any(s[0] == "return" for s, _ in walk(body)):
+            m = {p: (a if len(a) == 1 else ["("] + a + [")"]) for p, a in zip(params, args)}
+            return inline_calls(_subst_stmt(body, m), helpers, depth + 1)
+    return st
+
+
+def _subst_tokens(tokens, m):
+    out = []
+    for j, t in enumerate(tokens):
+        if t in m and not (j and tokens[j - 1] in (".", "->", "::")):
+            out += m[t]
+        else:
+            out.append(t)
+    return out
+
+
+def _subst_stmt(st, m):
+    k = st[0]
+    if k == "block":
+        return ("block", [_subst_stmt(s, m) for s in st[1]])
+    if k == "if":
+        return ("if", _subst_tokens(st[1], m), _subst_stmt(st[2], m), None if st[3] is None else _subst_stmt(st[3], m))
+    if k == "for":
+        return ("for", _subst_tokens(st[1], m), _subst_tokens(st[2], m), _subst_tokens(st[3], m), _subst_stmt(st[4], m))
+    if k in ("while", "dowhile"):
+        return (k, _subst_tokens(st[1], m), _subst_stmt(st[2], m))
+    if k == "try":
+        return ("try", _subst_stmt(st[1], m), [(d, _subst_stmt(b, m)) for d, b in st[2]])
+    if k in ("expr", "return", "throw"):
+        return (k, _subst_tokens(st[1], m))
+    return st
+
+
+# ------------------------------------------------------------------ straight-line symbolic execution
+
+class Unknown(Exception):
+    """the code does something the symbolic executor does not model"""
+
+
+OPAQUE = "__opaque"
+NO_EFFECT_CALLS = {"fprintf", "printf", "fflush", "puts", "fputs", "assert"}
+
+
+class Sym:
+    """State: scalars {name: C expression over the symbols of the initial state}, arrays {name: name of the array value held},
+    concrete {name: number} for the variables branches are decided on.  `run` executes statements in order; an `if` whose
+    condition is decided by the concrete values takes that branch; an undecided `if` is followed on both sides (a side that
+    leaves the function / loop is recorded in `side_exits` and dropped; two sides that fall through must agree)."""
+
+    def __init__(self, scalars=None, arrays=None, concrete=None, stop=None):
+        self.s = dict(scalars or {})
+        self.a = dict(arrays or {})
+        self.c = dict(concrete or {})
+        self.stop = stop or (lambda st: False)
+        self.side_exits = []
+        self._fresh = 0
+
+    def clone(self):
+        o = Sym(self.s, self.a, self.c, self.stop)
+        o.side_exits = self.side_exits
+        o._fresh = self._fresh
+        return o
+
+    def state(self):
+        return (dict(self.s), dict(self.a), dict(self.c))
+
+    def opaque(self, name):
+        self._fresh += 1
+        return f"{name}{OPAQUE}{self._fresh}"
+
+    def subst(self, tokens):
+        out = []
+        toks = list(tokens)
+        for j, t in enumerate(toks):
+            if t in self.s and not (j + 1 < len(toks) and toks[j + 1] == "(") and not (j and toks[j - 1] in (".", "->", "::")):
+                out.append("(" + self.s[t] + ")")
+            else:
+                out.append(t)
+        return " ".join(out)
+
+    def expr(self, name):
+        return self.s.get(name, name)
+
+    def arr(self, name, depth=0):
+        """the array value `name` holds; `const T *from = cond ? a : b;` makes `from` another name of a (or b)"""
+        if name in self.s and depth < 4:
+            v = self.s[name].replace(" ", "")
+            while v.startswith("(") and v.endswith(")"):
+                v = v[1:-1]
+            if IDENT.match(v) and v != name:
+                return self.arr(v, depth + 1)
+        return self.a.get(name, name)
+
+    def name(self, name, depth=0):
+        """the array a pointer local stands for"""
+        if name in self.s and depth < 4:
+            v = self.s[name].replace(" ", "")
+            while v.startswith("(") and v.endswith(")"):
+                v = v[1:-1]
+            if IDENT.match(v) and v != name:
+                return self.name(v, depth + 1)
+        return name
+
+    def pick(self, tokens):
+        """`c ? a : b` with c decided by the concrete values is a (or b)"""
+        if "?" not in tokens:
+            return list(tokens)
+        env = self._env()
+
+        def rec(e):
+            k = e[0]
+            if k == "cond":
+                c = _ev(e[1], env)
+                return rec(e[2] if c else e[3]) if c is not UNK else ("cond", e[1], rec(e[2]), rec(e[3]))
+            if k in ("neg", "not"):
+                return (k, rec(e[1]))
+            if k == "bin":
+                return ("bin", e[1], rec(e[2]), rec(e[3]))
+            if k == "call":
+                return ("call", e[1], [rec(a) for a in e[2]])
+            return e
+        try:
+            return tokenize(calg.unparse(rec(calg.parse(" ".join(tokens)))))
+        except (calg.CParseError, CStmtError):
+            return list(tokens)
+
+    def _env(self):
+        env = dict(self.c)
+        for k, v in self.s.items():
+            if k not in env and re.fullmatch(r"\(*-?\d+(\.\d*)?\)*", v.replace(" ", "")):
+                w = v.replace(" ", "").strip("()")
+                env[k] = int(w) if re.fullmatch(r"-?\d+", w) else float(w)
+        return env
+
+    def _assign(self, nm, op, rhs, decl):
+        if op == "&":
+            self.s[nm] = self.opaque(nm)
+            self.c.pop(nm, None)
+            return
+        if op.startswith("[]"):
+            self.a[nm] = self.opaque(nm)
+            return
+        old = self.expr(nm)
+        if op in ("++", "--"):
+            new = f"({old}) {op[0]} 1"
+            cv = value([nm, op[0], "1"], self._env())
+        else:
+            r = self.subst(self.pick(strip_casts(rhs)))
+            new = r if op == "=" else f"({old}) {op[0]} ({r})"
+            cv = value(rhs if op == "=" else [nm, op[0], "("] + list(rhs) + [")"], self._env())
+        if any(IDENT.match(x) and j + 1 < len(rhs or []) and rhs[j + 1] == "(" and x not in ("log10", "log", "pow", "exp", "sqrt", "fabs", "abs", "min", "max", "fmin", "fmax")
+               for j, x in enumerate(rhs or [])):
+            # the result of an unknown call
+            new = self.opaque(nm)
+            cv = UNK
+        self.s[nm] = new
+        if cv is UNK:
+            self.c.pop(nm, None)
+        elif nm in self.c or decl:
+            self.c[nm] = cv
+
+    def run(self, st):
+        """-> None (fell through) | ('stop', st) | ('return', tokens) | ('throw',) | ('break',) | ('continue',)"""
+        k = st[0]
+        if self.stop(st):
+            return ("stop", st)
+        if k == "block":
+            for s in st[1]:
+                r = self.run(s)
+                if r is not None:
+                    return r
+            return None
+        if k == "expr":
+            toks = st[1]
+            if not toks:
+                return None
+            cp = copies(st)
+            if cp:
+                for d, src, n in cp:
+                    self.a[self.name(d)] = self.arr(src) if n == "NEQUATIONS" else self.opaque(d)
+                return None
+            asg = assignments(toks)
+            for nm, op, rhs, decl in asg:
+                self._assign(nm, op, rhs, decl)
+            if not asg and len(toks) >= 3 and toks[1] == "(" and toks[0] not in NO_EFFECT_CALLS:
+                # a call this model knows nothing about: the arrays it is handed may change
+                for t in toks[2:]:
+                    if t in self.a:
+                        self.a[t] = self.opaque(t)
+            return None
+        if k == "if":
+            t = truth(st[1], self._env())
+            if t is True:
+                return self.run(st[2])
+            if t is False:
+                return self.run(st[3]) if st[3] is not None else None
+            a, b = self.clone(), self.clone()
+            ra = a.run(st[2])
+            rb = b.run(st[3]) if st[3] is not None else None
+            if ra is not None and ra[0] == "stop" or rb is not None and rb[0] == "stop":
+                raise Unknown(f"the point of interest is under the undecided condition `{txt(st[1])}`")
+            if ra is not None and rb is not None:
+                raise Unknown(f"both sides of the undecided `if ({txt(st[1])})` leave")
+            if ra is not None:
+                self.side_exits.append((st, ra))
+                self.s, self.a, self.c, self._fresh = b.s, b.a, b.c, max(a._fresh, b._fresh)
+                return None
+            if rb is not None:
+                self.side_exits.append((st, rb))
+                self.s, self.a, self.c, self._fresh = a.s, a.a, a.c, max(a._fresh, b._fresh)
+                return None
+            if a.state() != b.state():
+                raise Unknown(f"the state after `if ({txt(st[1])})` depends on a condition that is not decided")
+            self.s, self.a, self.c, self._fresh = a.s, a.a, a.c, max(a._fresh, b._fresh)
+            return None
+        if k == "for":
+            cp = copies(st)
+            if cp:
+                for d, src, n in cp:
+                    self.a[self.name(d)] = self.arr(src) if n == "NEQUATIONS" else self.opaque(d)
+                return None
+        if k in ("for", "while", "dowhile", "try"):
+            w = written(st)
+            hdr = {nm for nm, op, rhs, decl in assignments(st[1])} if k == "for" else set()
+            touched = (w - hdr) & (set(self.s) | set(self.a) | set(self.c))
+            if touched or any(s[0] in ("return", "throw") for s, _ in walk(st)):
+                raise Unknown(f"a `{k}` statement that writes {sorted(touched) or 'nothing tracked but may leave the function'}")
+            for nm in w:
+                self.s[nm] = self.opaque(nm)
+            return None
+        if k == "return":
+            return ("return", st[1])
+        if k in ("throw", "break", "continue"):
+            return (k,)
+        raise Unknown(f"statement kind {k}")
+
+
+def same_value(a: str, b: str):
+    """True / False: the two C expressions are / are not the same function of their symbols (canonical algebra);
+    None when one of them contains a value the executor could not follow"""
+    if OPAQUE in a or OPAQUE in b:
+        return None
+    try:
+        same = calg.canon_str(a).equiv(calg.canon_str(b))
+    except calg.CParseError:
+        return None
+    # an undecided `c ? x : y` is a value this comparison cannot speak about
+    return True if same else (None if "?" in a or "?" in b else False)
